@@ -74,7 +74,7 @@ def parse_unit(path):
                 continue
             if block is not None and block[0] == "raw" and not d.split()[0] in (
                     "unit", "prelude", "specs", "from", "take", "stub", "contract", "loop", "hint", "replace", "raw",
-                    "obligation", "canary", "derive_eq", "include", "desugar_enumerate"):
+                    "obligation", "canary", "derive_eq", "include", "desugar_enumerate", "mut_self"):
                 continue
             block = None
             cur_label = None
@@ -141,6 +141,8 @@ def parse_unit(path):
                 u.canary = w[1]
             elif w[0] == "desugar_enumerate":
                 u.desugar = getattr(u, "desugar", []) + [(w[1], int(w[2]))]
+            elif w[0] == "mut_self":
+                u.mut_self = getattr(u, "mut_self", []) + [w[1]]
             elif w[0] == "derive_eq":
                 u.derive_eq = getattr(u, "derive_eq", []) + w[1:]
             else:
@@ -377,6 +379,27 @@ def _desugar_enumerate(text, k, rules):
     rules.append("R7 for (%s, %s) in %s.iter().enumerate() -> while loop (%d continue rewritten)" % (ivar, xvar, e_text, n_cont))
     return text[:toks[kw][2]] + new + text[toks[bc][3]:]
 
+
+def _mut_self(text, rules):
+    """R5: `fn f(mut self, ..) { B }` -> `fn f(self, ..) { let mut this = self; B[self -> this] }` (Verus rejects `mut self`)."""
+    parts = _fn_parts(text)
+    toks = parts["toks"]
+    # find `mut self` in the parameter list
+    k = parts["fn"]
+    while toks[k][1] != "(":
+        k += 1
+    if not (toks[k + 1][1] == "mut" and toks[k + 2][1] == "self"):
+        raise BuildError("R5 refused: first parameter is not `mut self`")
+    edits = [(toks[k + 1][2], toks[k + 2][2], "")]
+    for j in range(parts["open"] + 1, parts["close"]):
+        if toks[j][0] == "id" and toks[j][1] == "self":
+            edits.append((toks[j][2], toks[j][3], "this"))
+    edits.append((toks[parts["open"]][3], toks[parts["open"]][3], "\n        let mut this = self;"))
+    for a, b, t in sorted(edits, reverse=True):
+        text = text[:a] + t + text[b:]
+    rules.append("R5 mut self -> let mut this = self (self. -> this.)")
+    return text
+
 class Emitter:
     def __init__(self):
         self.lines = []
@@ -503,6 +526,8 @@ def transform_fn(u, fnkey, text, em, meta, is_trait_impl=False, nested=False, st
                                                                                     cnt))
         plain = plain.replace(rp["old"], rp["new"])
         rules.append("%s `%s` -> `%s`" % (rp["rule"], rp["old"], rp["new"]))
+    if fnkey in getattr(u, "mut_self", []):
+        plain = _mut_self(plain, rules)
     for (fk, k) in getattr(u, "desugar", []):
         if fk == fnkey:
             plain = _desugar_enumerate(plain, k, rules)
@@ -642,6 +667,8 @@ def selfcheck_tokens(src_text, stageA, fnkey, rules):
                 continue
             if undo and t in R4_RENAMES.values():
                 t = [k for k, v in R4_RENAMES.items() if v == t][0]
+            if undo and t == "this":
+                t = "self"
             out.append(t)
         return out
     a = norm(src_text, False)
